@@ -335,6 +335,31 @@ func (s *MuxSim) Step(i int, op *MuxOp) *CallRec {
 		s.stepData(i, op, rec)
 	case "packet":
 		s.stepPacket(i, op, rec)
+	case "churn":
+		// expands into ordinary calls with synthetic handles; every one is checked like any other
+		rec.Skipped = true
+		start := len(s.Calls)
+		base := 1000000 + i*100000
+		for k := 0; k < op.N; k++ {
+			h := base + 3*k
+			pre := len(s.Out.Violations)
+			a := s.Step(h, &MuxOp{Op: "add", H: -1, PID: 0, Type: op.Type})
+			t := s.Step(h+1, &MuxOp{Op: "tables", H: -1})
+			if k >= op.Keep {
+				s.Step(h+2, &MuxOp{Op: "remove", H: h})
+			}
+			// the records of a long churn are not kept (memory); its violations are
+			if len(s.Calls)-start > 64 {
+				s.Calls = append(s.Calls[:start:start], s.Calls[len(s.Calls)-8:]...)
+			}
+			if a.Err != nil || t.Err != nil || len(s.Out.Violations) > pre {
+				s.Out.Probe("churn-stopped")
+				break
+			}
+			if k == op.N-1 {
+				s.Out.Probe("churn-completed")
+			}
+		}
 	}
 	return rec
 }
